@@ -352,8 +352,10 @@ def impl_and_oracle(mod, cassis, sc):
 
 
 def write_evidence(mod, ev):
-    os.makedirs(os.path.join(VERIF, "evidence"), exist_ok=True)
-    with open(os.path.join(VERIF, "evidence", f"{mod.ID}.json"), "w") as f:
+    # evidence describes /repo; a run against another tree (self-test of a seeded change) must not overwrite it
+    d = os.path.join(VERIF, "evidence") if os.path.realpath(REPO) == "/repo" else os.path.join(VERIF, ".work", "evidence-other-tree")
+    os.makedirs(d, exist_ok=True)
+    with open(os.path.join(d, f"{mod.ID}.json"), "w") as f:
         json.dump(ev, f, indent=1, default=str)
 
 
